@@ -207,7 +207,13 @@ def run_histories(ctx, props, profile_for, master_every=4, mprofile_for=None):
             realloop.real_loop_case(ctx, idx, rng, props[0])
             continue
         if master_every and idx % master_every == master_every - 1:
-            mh = mengine.MHistory(ctx, rng, mprofile_for(rng) if mprofile_for else mdrv.MProfile(), props)
+            mpf = mprofile_for(rng) if mprofile_for else mdrv.MProfile()
+            if props and props[0] == 'C06' and idx == 3:
+                # one Master-level history per shard with more than a thousand instances submitted at once
+                mpf.burst = True
+                mpf.n_steps = (4, 7)
+                mpf.p_restart = 0.0
+            mh = mengine.MHistory(ctx, rng, mpf, props)
             if 'C04' in props or 'C05' in props:
                 from ..master import crash
                 mh.d.cutter = crash.HeadroomSession(mh, ctx, 'C04' if 'C04' in props else 'C05')
